@@ -177,4 +177,5 @@ def run(chk):
         "termination for arbitrary graphs, file lookup relative to the program directory and unreadable/malformed files are outside (filesystem)",
         "structural counterexamples are confirmed by native import-graph probes before they are reported",
     ]
+    chk.run_probes("import graphs", graph_probe, chk.ws.runner("dev"), len(GRAPH_PROBES))
     chk.step("in-progress set", spec_in_progress, chk, NL, thorough)
